@@ -1,6 +1,7 @@
 package lib
 
 import (
+	"bytes"
 	"encoding/binary"
 	"fmt"
 	"net"
@@ -154,7 +155,11 @@ func BuildAction(r *rec.Rec) (of.Action, error) {
 			}
 			switch s.Text("kind") {
 			case "match_value", "load_value":
-				ls.SrcValue = append([]byte(nil), s.Bytes("value")...)
+				v := s.Bytes("value")
+				if k := int(s.U("_slack")); k > 0 { // a scratch buffer longer than the immediate needs: only its first bytes count
+					v = append(append([]byte(nil), v...), bytes.Repeat([]byte{0x5a}, k)...)
+				}
+				ls.SrcValue = Own(v)
 			default:
 				ls.SrcField = &of.NXLearnSpecField{Field: HeaderField(s.U32("src"), s.Text("_src_name")), Ofs: s.U16("src_ofs")}
 			}
@@ -166,7 +171,7 @@ func BuildAction(r *rec.Rec) (of.Action, error) {
 		return a, nil
 	case "nx_note":
 		a := of.NewNXActionNote()
-		a.Note = append([]byte(nil), r.Bytes("note")...)
+		a.Note = Own(r.Bytes("note"))
 		return a, nil
 	case "nx_reg_load2":
 		f, err := BuildMatchField(r.Sub("field"))
@@ -411,13 +416,13 @@ func BuildMessage(r *rec.Rec) (util.Message, error) {
 			}
 			p.Data = m
 		} else if r.Has("data") || r.Bool("_set_data") {
-			p.SetData(append([]byte(nil), r.Bytes("data")...))
+			p.SetData(Own(r.Bytes("data")))
 		}
 		setXid(&p.Header, r)
 		return p, nil
 	case "port_mod":
 		p := of.NewPortMod(int(r.U32("port_no")))
-		p.HWAddr = append([]byte(nil), r.Bytes("hw_addr")...) // any length the exported field accepts (nil, EUI-64, IPoIB ...); the wire slot is 6 bytes
+		p.HWAddr = Own(r.Bytes("hw_addr")) // any length the exported field accepts (nil, EUI-64, IPoIB ...); the wire slot is 6 bytes
 		if len(p.HWAddr) == 0 {
 			p.HWAddr = nil
 		}
